@@ -10,6 +10,9 @@ Lemma bind_ok {A B} (r : res A) (f : A -> res B) b :
   bind r f = Ok b -> exists a, r = Ok a /\ f a = Ok b.
 Proof. destruct r; cbn [bind]; try discriminate. eauto. Qed.
 
+Lemma ok_inj_gen {A} (a b : A) : Ok a = Ok b -> a = b.
+Proof. intros H. injection H. auto. Qed.
+
 Lemma pos_split p S i : 0 < S -> i * S <= p < i * S + S -> p / S = i /\ p mod S = p - i * S.
 Proof.
   intros HS Hp. replace p with (i * S + (p - i * S)) at 1 2 by lia.
@@ -500,6 +503,110 @@ Section Image.
           f_equal. rewrite Hmask.
           pose proof (Z.div_mod x cs ltac:(lia)). unfold x in *. lia.
       Qed.
+
+      Definition host_of : Z :=
+        if ty =? T_COMPRESSED then Z.land e0 qcow2_L2E_COMPRESSED_OFFSET_SIZE_MASK
+        else if is_in ty qcow2_NORMAL_SUBCLUSTER_TYPES then m0 + oic else 0.
+
+      Lemma entry_step :
+        0 < rc <= length /\
+        srcs_of (seg_of_run im (ty, offset, host_of, rc)) = map (guest_src im) (zseq offset rc).
+      Proof.
+        pose proof geo_ok as G.
+        destruct entry_facts as (Hv & Hc1 & Hcomp & Hpos & Hrcb). split; [exact Hrcb|].
+        rewrite (zseq_rel (guest_src im)).
+        rewrite (map_ext_zseq _ expected 0 rc) by (intros j Hj; apply entry_byte; lia).
+        destruct (step_indices) as (Hi1 & _).
+        unfold seg_of_run, host_of, expected. fold q. rewrite Hi1.
+        unfold unallocated, stored. change (s_backing sim) with (i_backing im).
+        rewrite (gk_df _ _ _ _ G). fold df.
+        destruct Hv as [Hv1 Hv2].
+        assert (Hcases : ty = 0 \/ ty = 1 \/ ty = 2 \/ ty = 3 \/ ty = 4 \/ ty = 5) by lia.
+        destruct Hcases as [-> | [-> | [-> | [-> | [-> | ->]]]]].
+        - change (is_in 0 qcow2_ZERO_SUBCLUSTER_TYPES) with false.
+          change (is_in 0 qcow2_UNALLOCATED_SUBCLUSTER_TYPES) with true.
+          destruct (i_backing im); cbn [negb andb orb]; rewrite srcs_single; cbn [srcs_of_seg].
+          + apply zseq_rel.
+          + reflexivity.
+        - change (is_in 1 qcow2_ZERO_SUBCLUSTER_TYPES) with false.
+          change (is_in 1 qcow2_UNALLOCATED_SUBCLUSTER_TYPES) with true.
+          destruct (i_backing im); cbn [negb andb orb]; rewrite srcs_single; cbn [srcs_of_seg].
+          + apply zseq_rel.
+          + reflexivity.
+        - change (is_in 2 qcow2_ZERO_SUBCLUSTER_TYPES) with true. cbn [orb].
+          rewrite srcs_single. reflexivity.
+        - change (is_in 3 qcow2_ZERO_SUBCLUSTER_TYPES) with true. cbn [orb].
+          rewrite srcs_single. reflexivity.
+        - change (is_in 4 qcow2_ZERO_SUBCLUSTER_TYPES) with false.
+          change (is_in 4 qcow2_UNALLOCATED_SUBCLUSTER_TYPES) with false.
+          change (is_in 4 qcow2_NORMAL_SUBCLUSTER_TYPES) with true.
+          change (4 =? T_COMPRESSED) with false. change (4 =? T_NORMAL) with true.
+          cbn [negb andb orb]. rewrite srcs_single.
+          destruct df; cbn [srcs_of_seg]; rewrite zseq_rel; apply map_ext; intros j; f_equal; lia.
+        - change (is_in 5 qcow2_ZERO_SUBCLUSTER_TYPES) with false.
+          change (is_in 5 qcow2_UNALLOCATED_SUBCLUSTER_TYPES) with false.
+          change (5 =? T_COMPRESSED) with true.
+          cbn [negb andb orb]. rewrite srcs_single. cbn [srcs_of_seg].
+          rewrite l2e_descriptor. apply zseq_rel.
+      Qed.
     End Entry.
   End Step.
+
+  Lemma emit_combine (g : Z -> src) r rest offset length rc :
+    0 < rc <= length ->
+    srcs_of (seg_of_run im r) = map g (zseq offset rc) ->
+    srcs_of (flat_map (seg_of_run im) rest) = map g (zseq (offset + rc) (length - rc)) ->
+    srcs_of (flat_map (seg_of_run im) (r :: rest)) = map g (zseq offset length).
+  Proof.
+    intros Hrc H1 H2. cbn [flat_map]. rewrite srcs_of_app, H1, H2.
+    replace length with (rc + (length - rc)) at 2 by lia.
+    rewrite zseq_app by lia. rewrite map_app. reflexivity.
+  Qed.
+
+  (* ================================================================ *)
+  (* J. the loop                                                      *)
+  (* ================================================================ *)
+  Theorem yield_runs_correct fuel : forall offset length runs,
+    yield_runs im fuel offset length = Ok runs ->
+    srcs_of (flat_map (seg_of_run im) runs) = map (guest_src im) (zseq offset length).
+  Proof.
+    pose proof geo_ok as G. pose proof B_pos as HB.
+    induction fuel as [|fuel IH]; intros offset length runs Hrun.
+    - cbn [yield_runs] in Hrun. destruct (Z.leb_spec length 0); [|discriminate].
+      injection Hrun as <-. rewrite zseq_nonpos by lia. reflexivity.
+    - cbn [yield_runs] in Hrun. destruct (Z.leb_spec length 0) as [|Hlen].
+      { injection Hrun as <-. rewrite zseq_nonpos by lia. reflexivity. }
+      cbv zeta in Hrun. fold q in Hrun.
+      destruct (step_indices offset length) as (Hi1 & Hi2 & Hi3 & Hi4 & Hi5).
+      rewrite Hi5 in Hrun. rewrite ?Hi1, ?Hi2, ?Hi3, ?Hi4 in Hrun.
+      destruct hd_fields as (_ & Hl1s & _).
+      rewrite Hl1s in Hrun.
+      set (oic := offset mod 2 ^ cb) in *.
+      set (l2i := (offset / 2 ^ cb) mod 2 ^ L) in *.
+      set (l1i := offset / 2 ^ cb / 2 ^ L) in *.
+      set (bn := Z.min (length + oic) ((2 ^ L - l2i) * 2 ^ cb)) in *.
+      destruct (Z.gtb_spec l1i (h_l1_size (i_hdr im))) as [Hgt|Hle].
+      { (* beyond the L1 table *)
+        apply bind_ok in Hrun. destruct Hrun as (rest & Hrest & Hrun). apply ok_inj_gen in Hrun. subst runs.
+        destruct (unalloc_step offset length Hlen (or_introl (Hl1 l1i ltac:(lia)))) as [Hrc Hseg].
+        eapply emit_combine; [exact Hrc|exact Hseg|]. apply IH. exact Hrest. }
+      destruct (i_l1 im l1i) as [l1e|] eqn:Hl1e; cbn [of_option bind] in Hrun; [|discriminate].
+      destruct (Z.eqb_spec (Z.land l1e qcow2_L1E_OFFSET_MASK) 0) as [Hz|Hnz].
+      { (* no L2 table *)
+        apply bind_ok in Hrun. destruct Hrun as (rest & Hrest & Hrun). apply ok_inj_gen in Hrun. subst runs.
+        destruct (unalloc_step offset length Hlen
+                    (or_intror (ex_intro _ l1e (conj Hl1e Hz)))) as [Hrc Hseg].
+        eapply emit_combine; [exact Hrc|exact Hseg|]. apply IH. exact Hrest. }
+      apply bind_ok in Hrun. destruct Hrun as (e0 & He0 & Hrun).
+      apply bind_ok in Hrun. destruct Hrun as (bm0 & Hbm0 & Hrun).
+      apply bind_ok in Hrun. destruct Hrun as (ty & Hty & Hrun).
+      apply bind_ok in Hrun. destruct Hrun as (count & Hcount & Hrun).
+      apply bind_ok in Hrun. destruct Hrun as (rest & Hrest & Hrun). apply ok_inj_gen in Hrun. subst runs.
+      rewrite (gk_scb _ _ _ _ G) in Hrest. fold B in Hrest.
+      rewrite Z.shiftl_mul_pow2 in Hrest by exact HB.
+      destruct (entry_step offset length Hlen l1e e0 bm0 ty count Hl1e Hnz He0 Hbm0 Hty Hcount) as [Hrc Hseg].
+      eapply emit_combine; [exact Hrc| |apply IH; exact Hrest].
+      rewrite (gk_scb _ _ _ _ G). fold B. rewrite Z.shiftl_mul_pow2 by exact HB.
+      exact Hseg.
+  Qed.
 End Image.
